@@ -6,12 +6,27 @@ import json
 from . import common, tlc, vprogs
 
 
+def reaches(p, src, dst):
+    seen, todo = set(), [src]
+    while todo:
+        n = todo.pop()
+        nd = vprogs.node(p, n)
+        if n in seen or nd is None or "refs" not in nd:
+            continue
+        seen.add(n)
+        for q in nd["refs"]:
+            if q["to"] == dst:
+                return True
+            todo.append(q["to"])
+    return False
+
+
 def graph_of(p):
     g = []
     for n in p["nodes"]:
         if n["kind"] in ("mem", "plain"):
             g.append({"name": n["name"], "kind": n["kind"],
-                      "refs": [q["to"] for q in n["refs"] if q["to"][0] in "mh"],
+                      "refs": [q["to"] for q in n["refs"] if q["to"][0] not in "vu"],
                       "hidden": list(n.get("hidden", []))})
     return g
 
@@ -32,7 +47,7 @@ def small_graphs(r, quick):
                 refs = []
                 for i, (x, y) in enumerate(pairs):
                     if x == a and (mask >> i) & 1:
-                        form = r.choice(["bare", "attr", "alias", "wrapped"]) if y.startswith("m") else r.choice(["bare", "attr"])
+                        form = r.choice(["bare", "attr", "alias", "wrapped", "wrapped2"]) if y.startswith("m") else r.choice(["bare", "attr"])
                         refs.append({"to": y, "form": form})
                 nodes.append(vprogs.new_fn(a, "mem" if a.startswith("m") else "plain", refs))
             out.append({"nodes": nodes})
@@ -44,7 +59,8 @@ def run_body(rep, r, wd, quick):
     progs_ = small_graphs(r, quick)
     for _ in range(40 if quick else 1000):         # larger random graphs with cycles
         progs_.append(vprogs.random_prog(r, nmem=r.choice([3, 4]), nplain=r.choice([1, 2, 3]), nvar=1, hidden_p=0.0,
-                                         forms=("bare", "attr", "alias", "wrapped"), acyclic=False))
+                                         forms=("bare", "attr", "alias", "wrapped", "wrapped2"), acyclic=False,
+                                         twins_p=0.2))
     for p in progs_:
         mems = [n["name"] for n in p["nodes"] if n["kind"] == "mem"]
         jobs.append({"prog": p, "steps": [{"do": "proc", "hashseed": "0"}] + [{"do": "deps", "name": m_} for m_ in mems]})
@@ -54,13 +70,33 @@ def run_body(rep, r, wd, quick):
                                forms=("bare", "attr", "alias"), acyclic=True)
         jobs.append({"prog": p, "steps": [{"do": "proc", "hashseed": "0"},
                                           {"do": "call", "name": "m1", "how": ["plain", "clone", "partial"][i % 3]}]})
+    for i in range(12 if quick else 200):          # a function handed over as an argument may be called -- in that invocation only
+        p = vprogs.random_prog(r, nmem=r.choice([3, 4]), nplain=1, nvar=1, hidden_p=0.0, forms=("bare", "attr"), acyclic=True)
+        m1 = vprogs.node(p, "m1")
+        outside = [n["name"] for n in p["nodes"] if n["kind"] == "mem" and n["name"] != "m1" and not reaches(p, "m1", n["name"])]
+        if not outside:
+            m1["refs"] = [q for q in m1["refs"] if q["to"][0] != "m"]
+            for n in p["nodes"]:
+                if n["kind"] == "plain":
+                    n["refs"] = [q for q in n["refs"] if q["to"][0] != "m"]
+            outside = [n["name"] for n in p["nodes"] if n["kind"] == "mem" and n["name"] != "m1" and not reaches(p, "m1", n["name"])]
+        t = r.choice(outside)
+        m1["fnarg"] = True
+        m1["hidden"] = [t]
+        how = ["plain", "clone", "partial"][i % 3]
+        steps = [{"do": "proc", "hashseed": "0"}]
+        order = r.choice([("arg", "bare"), ("arg", "bare", "arg"), ("bare", "arg", "bare")])
+        for j, kind in enumerate(order, start=1):
+            steps.append({"do": "call", "name": "m1", "how": how, "arg": j, "fnarg": t if kind == "arg" else None})
+        jobs.append({"prog": p, "steps": steps})
     traces = common.run_jobs("ver_worker.py", jobs, wd, timeout=3000)
     payload = []
     for j, t in zip(jobs, traces):
         evs = []
         for e in t["ev"]:
-            d = {k: v for k, v in e.items() if k in ("op", "name", "exc", "trans", "direct", "edges", "how")}
+            d = {k: v for k, v in e.items() if k in ("op", "name", "exc", "trans", "direct", "edges", "how", "passed")}
             d.setdefault("exc", "")
+            d.setdefault("passed", [])
             if d["op"] == "deps":
                 for k in ("trans", "direct", "edges"):
                     d.setdefault(k, [])
@@ -74,8 +110,9 @@ def run_body(rep, r, wd, quick):
     rep.cov["distinct_nontrivial"] = len({json.dumps(p["cfg"]["graph"]) for p in payload})
     rep.cov["rule"] = ("reference graphs: all (thorough) / a 6% sample (quick) of the 4 x 512 graphs over three nodes {m1, memento|plain, "
                        "memento|plain} with arbitrary edges incl. self loops and cycles, edge forms drawn from {bare, module attribute, "
-                       "alias, decorator-wrapped}; random 4-7 node graphs with cycles; acyclic programs with hidden dynamic calls called "
-                       "plainly and through modifiers for enforcement")
+                       "alias, decorator-wrapped once / twice}; random 4-7 node graphs with cycles (some with two static methods of the same "
+                       "bare name); acyclic programs with hidden dynamic calls called plainly and through modifiers for enforcement; call "
+                       "sequences in which the hidden callee is handed over as an argument in some invocations and not in others")
     rep.sample({"graph": payload[0]["cfg"]["graph"], "events": payload[0]["ev"]})
     rep.sample({"graph": payload[-1]["cfg"]["graph"], "events": payload[-1]["ev"]})
     for rj in rej:
